@@ -5,7 +5,7 @@ import Mathlib.Analysis.SpecialFunctions.Trigonometric.Basic
 # C09 theorems, part 8: `Interval::sin` and `Interval::cos` enclose the sine / cosine of every point of the interval —
 over the reals, with Mathlib's `Real.sin`, `Real.cos`, `Real.pi` and `Int.floor`.
 
-The model (`Model.Interval.sin/cos`) is parametrised by a `Trig` record (the `RealField` operations the code calls);
+The model (`Model.Interval.sin/cos`) is parametrised by a `TrigOps` record (the `RealField` operations the code calls);
 `realTrig` instantiates it with the real functions and the exact constants.  `interval_sin_contains` /
 `interval_cos_contains`: for all reals `a ≤ x ≤ b`, the returned interval contains `sin x` (`cos x`) — every
 width, every position (the range reduction `orig = ⌊a / 2π⌋·2π` and the two critical-point tests each are shown to
@@ -21,7 +21,7 @@ namespace C09
 open Model Real
 
 /-- the real instance of the `RealField` operations used by `Interval::sin/cos`; `two_pi() = PI + PI` as in simba -/
-noncomputable def realTrig : Trig ℝ := ⟨Real.sin, Real.cos, fun t => (⌊t⌋ : ℝ), π, π + π, π / 2⟩
+noncomputable def realTrig : TrigOps ℝ := ⟨Real.sin, Real.cos, fun t => (⌊t⌋ : ℝ), π, π + π, π / 2⟩
 
 /-! ## monotone pieces -/
 
